@@ -418,6 +418,11 @@ def run(ctx) -> None:
             why = "span-id publication or executor call not found"
         rep.add("C12.R4", f"{region_f.qname}:publish-span", ok, f"{region_f.module.rel}:{stores[0].lineno if stores else region_f.lineno}", why)
 
+    # shutdown reaches every processor: each processor's shutdown call is guarded on its own inside the loop
+    from .c13 import check_delivery_guarded
+
+    check_delivery_guarded(ctx, "C12.R3", only_methods={"shutdown", "shutdown_async"})
+
     # ---- R5 -------------------------------------------------------------------
     check_validate_first(ctx, "C12.R5")
 
